@@ -33,7 +33,7 @@ RULE = ("for each scenario of the fixed catalogue: one clean run counts the N al
         "the scenario went on to its tear-down; distinct = distinct (variant, scenario, k1, k2)")
 
 WRAPS = ["coap_ticks", "coap_socket_send", "coap_socket_recv",
-         "coap_malloc_type", "coap_realloc_type", "coap_free_type"]
+         "coap_malloc_type", "coap_realloc_type", "coap_free_type", "coap_io_process_lkd"]
 
 MEMTAG = ["STRING", "ATTRIBUTE_NAME", "ATTRIBUTE_VALUE", "PACKET", "NODE", "CONTEXT", "ENDPOINT",
           "PDU", "PDU_BUF", "RESOURCE", "RESOURCEATTR", "DTLS_SESSION", "SESSION", "OPTLIST",
